@@ -224,8 +224,13 @@ impl Work<Context, AnyWorkId, Error> for FontWork {
                     log::warn!("We generated {tag} for a static font, which seems weird but okay");
                 }
                 builder.add_raw(*tag, bytes);
-            } else {
+            } else if *work_id == WorkId::Avar {
+                // a no-op avar is recorded as present-but-empty
                 debug!("No content for {tag}");
+            } else {
+                // the table exists but could not be turned into bytes: fail the build
+                // instead of silently leaving the table out of the font
+                return Err(Error::MissingTable(*tag));
             }
         }
 
